@@ -146,4 +146,12 @@ theorem cutAt_ne_nil {e : Nat} {l : List Nat} (hl : l ≠ []) (hh : l.head? ≠ 
     have hx : x ≠ e := fun hx => hh (by simp [hx])
     simp [hx]
 
+theorem cutAt_append_self {n : Nat} {l : List Nat} (h : n ∉ l) : cutAt n (l ++ [n]) = l := by
+  induction l with
+  | nil => simp [cutAt_cons, cutAt_nil]
+  | cons x l ih =>
+    rw [List.cons_append, cutAt_cons]
+    have hx : x ≠ n := fun hx => h (hx ▸ List.mem_cons_self)
+    simp [hx, ih (fun hm => h (List.mem_cons_of_mem _ hm))]
+
 end Life
